@@ -84,11 +84,12 @@ func (t *Text) GenerateOutput(textOnly bool) string {
 	}
 
 	// Retain parent tags until the root is not an inline element, to make sure the
-	// style is display:block.
+	// style is display:block. An element that can be nested is already wrapped by a
+	// pair of Tags, so it needs no further parent even when it is styled as inline.
 	var srcRoot *html.Node
 	for {
 		display := domutil.GetDisplayStyle(clonedRoot)
-		if display != "inline" {
+		if display != "inline" || CanBeNested(dom.TagName(clonedRoot)) {
 			break
 		}
 
